@@ -14,9 +14,9 @@ func (c15) Technique() string {
 }
 func (c15) Runs(tier string) int {
 	if tier == "thorough" {
-		return 2000000
+		return 6000000
 	}
-	return 150000
+	return 400000
 }
 func (c15) Rule() string {
 	return "history of 1-20 ops on a source (LIFO/FIFO, nil elements) and destinations (capacity none or 1-8, read-only, no-nesting, zero value, foreign values; native / alias / pointer dress), with Transfer at random instants; non-trivial = at least one Transfer succeeded AND one was refused for capacity / read-only / dead / foreign reasons; distinct = hash(op sequence with lengths and outcomes)"
